@@ -32,21 +32,23 @@ def main():
         files = {'x.as': pr['text']}
         for r in ROUTES: files['observed-%s.txt' % r] = (res[r][0] or b'') + ('\n[%s]\n' % res[r][1]).encode() + res[r][2].err[-1000:]
         kind = pr['name'].split(':')[0]
-        # faults / hangs first
+        # A fault is a failure exit like any other for this property (agreement is what is demanded); what may not happen is
+        # that the routes differ, that one hangs, or that one cannot be built while another runs.
         bad = False
         for r in ROUTES:
             o, xc, p = res[r]
-            ft = fault_text(p)
-            if xc == 'watchdog' or xc.endswith('watchdog'):
+            if 'watchdog' in xc:
                 ctx.violation('hang:%s:%s' % (r, pr['name'] if kind == 'corpus' else 'generated'), '%s %s %s' % (pr['name'], lv, r), files); bad = True
-            elif xc == 'signal' or (ft and 'Unhandled' not in ft):
-                ctx.violation('fault:%s:%s:%s' % (r, lv, pr['name'] if kind == 'corpus' else 'generated'), '%s %s %s: %s %s' % (pr['name'], lv, r, p.cause, ft), files); bad = True
-            elif xc.startswith('compile-'):
-                ctx.violation('no-executable:%s:%s:%s' % (r, lv, pr['name'] if kind == 'corpus' else 'generated'), '%s %s %s: %s' % (pr['name'], lv, r, (p.out + p.err)[-400:].decode(errors='replace')), files); bad = True
-        if bad: continue
+        ncomp = [r for r in ROUTES if res[r][1].startswith('compile-')]
+        if ncomp and len(ncomp) < len(ROUTES):
+            r = ncomp[0]; p = res[r][2]
+            ctx.violation('no-executable:%s:%s:%s' % (r, lv, pr['name'] if kind == 'corpus' else 'generated'), '%s %s %s: %s' % (pr['name'], lv, r, (p.out + p.err)[-400:].decode(errors='replace')), files); bad = True
+        if bad or ncomp: continue
         ref = outs['c']
         def cls(x): return 'ok' if x == 'ok' else 'fail'
+        def faulted(r): return res[r][1] == 'signal' or bool(fault_text(res[r][2]) and 'Unhandled' not in fault_text(res[r][2]))
         for r in ('interp-src', 'interp-ao'):
+            if faulted(r) and faulted('c'): continue        # both end in a fault: buffered output of the dying process is not comparable
             if outs[r][0] != ref[0] or cls(outs[r][1]) != cls(ref[1]):
                 ctx.violation('disagree:%s-vs-c:%s:%s' % (r, lv, pr['name'] if kind == 'corpus' else 'generated'),
                               '%s at %s: %s gives %r/%s, c gives %r/%s' % (pr['name'], lv, r, (outs[r][0] or b'')[-150:], outs[r][1], (ref[0] or b'')[-150:], ref[1]), files)
